@@ -156,7 +156,15 @@ def run(ctx):
     epsq = ("sq", ("field", ("downcast", ("get", "en_passant", SELF), "Some"), "0"), ("relrank", 5, STM))
     # ------------------------------------------------------------------ field order
     ctx.rule("field-order")
-    rets = [p for p in paths if p.end == "return" and p.ret[0] == "agg" and p.ret[2] == "Ok"]
+    def fmt_ok(p_):
+        """the formatter reports success: Ok(()) or the verdict of the last write handed back as it is"""
+        if p_.end != "return" or p_.ret is None:
+            return False
+        if p_.ret[0] == "agg" and p_.ret[2] == "Ok":
+            return True
+        lw = [e_ for e_ in p_.events if e_.kind == "call" and e_.depth == 0 and "core::fmt" in e_.name and "::write_" in e_.name]
+        return bool(lw) and p_.ret == lw[-1].ret
+    rets = [p for p in paths if fmt_ok(p)]
     try:
         n = 0
         for p in rets:
